@@ -10,11 +10,40 @@ static int L, trial;
 static fiber_mutex_t mu;
 static vp_counter_t *c_trials, *c_yields, *c_victim_runs, *c_created_midrun, *c_pollers_done;
 
+// yields that come back at once (no context switch) while a fiber is ready in this thread's own run queue are bypasses too, although
+// the scheduler never switched. Judged when the very same ready fiber (same queue entry) is seen at B+1 and again at 2B+2
+// consecutive such yields, B being the bound in force: it was ready throughout and was passed over more than B times.
+static void checked_yield(fb_slot_t* s) {
+  const uint64_t sw = vp_self_switches();
+  fiber_yield();
+  if (vp_self_switches() != sw) {
+    s->a = 0;
+    return;
+  }
+  const long B = vp_ghost_bypass_bound();
+  if (!B) return;
+  const long streak = ++s->a;
+  if (streak == B + 1) {
+    uint64_t mark = 0;
+    const void* x = vp_ghost_ready_on_my_sched(&mark);
+    s->b = (long)(uintptr_t)x;
+    s->c_mark = mark;
+  } else if (streak == 2 * B + 2 && s->b) {
+    uint64_t mark = 0;
+    const void* x = vp_ghost_ready_on_my_sched(&mark);
+    if (x && (long)(uintptr_t)x == s->b && mark == s->c_mark)
+      vp_violation("C10", "yield:returned-at-once-while-a-fiber-was-ready",
+                   "trial %d: %ld consecutive fiber_yield() calls of fiber %d returned without a context switch while fiber %p sat ready (suspension completed, same queue entry) in the run queue of the same kernel thread; bound %ld",
+                   trial, streak, s->id, x, B);
+  }
+}
+
 static void* forever_yielder(void* a) {
   fb_slot_t* s = (fb_slot_t*)a;
   atomic_store(&s->where, "C10 yield loop waiting for a flag set by another ready fiber");
+  s->a = 0;
   while (!atomic_load(&stop_flag)) {
-    fiber_yield();
+    checked_yield(s);
     vp_add(c_yields, 1);
   }
   atomic_store(&s->where, (const char*)0);
